@@ -206,42 +206,21 @@ Section Machine.
   Inductive res (A : Type) := RSkip | RBad | ROk (x : A).
   Arguments RSkip {A}. Arguments RBad {A}. Arguments ROk {A} x.
 
-  Definition kind_of (c : pystr) (name : pystr) : option ckind :=
-    match find (fun f => pystr_eqb (fd_name f) name) (child_fields ct c) with
-    | Some f => Some (child_kind f)
-    | None => None
-    end.
-
-  (* one child-field value given by locators *)
-  Definition kid_value (s : st) (c name : pystr) (sh : kshape) (ls : list loc) : res (kshape * list nat) :=
-    match kind_of c name with
-    | None => RBad
-    | Some k => if shape_okr k sh (length ls)
-                then match mapO (resolve s) ls with Some l => ROk (sh, l) | None => RSkip end
-                else RBad
-    end.
-
-  Fixpoint res_map {A B} (f : A -> res B) (l : list A) : res (list B) :=
-    match l with
-    | [] => ROk []
-    | x :: r => match f x with
-                | RBad => RBad
-                | RSkip => match res_map f r with RBad => RBad | _ => RSkip end
-                | ROk y => match res_map f r with RBad => RBad | RSkip => RSkip | ROk t => ROk (y :: t) end
-                end
-    end.
-
-  (* the constructor call with every field of the class, in declaration order *)
+  (* the constructor call with every field of the class, in declaration order; children by locator *)
   Definition new_args (s : st) (c : pystr) (ps : list (pystr * pval)) (ks : list (pystr * (kshape * list loc)))
     : res kidsr :=
     match find_class ct c with
     | None => RBad
     | Some _ =>
       if zip_ok (fun f p => pystr_eqb (fd_name f) (fst p)) (prop_fields ct c) ps
-         && zip_ok (fun f (k : pystr * (kshape * list loc)) => pystr_eqb (fd_name f) (fst k)) (child_fields ct c) ks
-      then res_map (fun k : pystr * (kshape * list loc) =>
-                      match kid_value s c (fst k) (fst (snd k)) (snd (snd k)) with
-                      | ROk v => ROk (fst k, v) | RSkip => RSkip | RBad => RBad end) ks
+         && zip_ok (fun f (k : pystr * (kshape * list loc)) =>
+                      pystr_eqb (fd_name f) (fst k) && shape_okr (child_kind f) (fst (snd k)) (length (snd (snd k))))
+                   (child_fields ct c) ks
+      then match mapO (fun k : pystr * (kshape * list loc) =>
+                         option_map (fun l => (fst k, (fst (snd k), l))) (mapO (resolve s) (snd (snd k)))) ks with
+           | Some ks' => ROk ks'
+           | None => RSkip
+           end
       else RBad
     end.
 
@@ -249,35 +228,34 @@ Section Machine.
   Fixpoint nodup_keys (l : list pystr) : bool :=
     match l with [] => true | x :: r => negb (smemb x r) && nodup_keys r end.
 
-  (* the changes with child locators resolved; ill-typed values for known init fields are inadmissible *)
+  (* change values with the child locators resolved *)
   Inductive rval := VProp (v : pval) | VOrigin (o : origin) | VKids (v : kshape * list nat).
-  Definition change_value (s : st) (c : pystr) (e : pystr * cval) : res (pystr * rval) :=
-    let name := fst e in
-    match find (fun f => pystr_eqb (fd_name f) name) (all_fields ct c) with
-    | None => (* unknown key: any value, TypeError later *)
-        match snd e with
-        | CKids sh ls => match mapO (resolve s) ls with Some l => ROk (name, VKids (sh, l)) | None => RSkip end
-        | CProp v => ROk (name, VProp v)
-        | COrigin o => ROk (name, VOrigin o)
-        end
+  Definition resolve_cval (s : st) (cv : cval) : option rval :=
+    match cv with
+    | CProp v => Some (VProp v)
+    | COrigin o => Some (VOrigin o)
+    | CKids sh ls => match mapO (resolve s) ls with Some l => Some (VKids (sh, l)) | None => None end
+    end.
+  (* admissibility: the value given for a known init field has the field's type *)
+  Definition change_ok (c : pystr) (e : pystr * cval) : bool :=
+    match find (fun f => pystr_eqb (fd_name f) (fst e)) (all_fields ct c) with
+    | None => true
     | Some f =>
-      if negb (fd_init f) then
-        match snd e with
-        | CKids sh ls => match mapO (resolve s) ls with Some l => ROk (name, VKids (sh, l)) | None => RSkip end
-        | CProp v => ROk (name, VProp v)
-        | COrigin o => ROk (name, VOrigin o)
-        end
-      else if pystr_eqb name (lit "origin") then
-        match snd e with COrigin o => ROk (name, VOrigin o) | _ => RBad end
+      if negb (fd_init f) then true
+      else if pystr_eqb (fst e) (lit "origin") then match snd e with COrigin _ => true | _ => false end
       else match fd_role f, snd e with
-           | RProp, CProp v => ROk (name, VProp v)
-           | RChild _, CKids sh ls =>
-               match kid_value s c name sh ls with ROk v => ROk (name, VKids v) | RSkip => RSkip | RBad => RBad end
-           | _, _ => RBad
+           | RProp, CProp _ => true
+           | RChild k, CKids sh ls => shape_okr k sh (length ls)
+           | _, _ => false
            end
     end.
   Definition changes (s : st) (c : pystr) (ch : list (pystr * cval)) : res (list (pystr * rval)) :=
-    if nodup_keys (map fst ch) then res_map (change_value s c) ch else RBad.
+    if nodup_keys (map fst ch) && forallb (change_ok c) ch then
+      match mapO (fun e : pystr * cval => option_map (fun v => (fst e, v)) (resolve_cval s (snd e))) ch with
+      | Some l => ROk l
+      | None => RSkip
+      end
+    else RBad.
 
   (* the loop over fields(obj): a non-init field named in changes raises ValueError; then the constructor
      call raises TypeError for a keyword that is no field *)
@@ -332,13 +310,14 @@ Section Machine.
       end
     end.
 
-  Definition finish (dst : nat) (r : st * obs) : st * obs :=
+  (* the result is bound to a variable of the program *)
+  Definition bind (dst : nat) (r : st * obs) : st * obs :=
     match r with
-    | (s, OkNode a) => (gc (set_var s dst (Some a)), OkNode a)
+    | (s, OkNode a) => (set_var s dst (Some a), OkNode a)
     | _ => r
     end.
 
-  Definition step (s : st) (o : op) : st * obs :=
+  Definition step_raw (s : st) (o : op) : st * obs :=
     match o with
     | New dst c og ps ks =>
       if negb (Nat.ltb dst (length (vars s))) then (s, Bad) else
@@ -346,7 +325,7 @@ Section Machine.
       | RBad => (s, Bad)
       | RSkip => (s, Skipped)
       | ROk ks' => match alloc s c og ps ks' with
-                   | Some (s', a) => finish dst (s', OkNode a)
+                   | Some (s', a) => bind dst (s', OkNode a)
                    | None => (s, FuelOut)
                    end
       end
@@ -355,7 +334,7 @@ Section Machine.
       match resolve s src with
       | None => (s, Skipped)
       | Some a => match dup (length (heap s)) s a with
-                  | Some (s', a') => finish dst (s', OkNode a')
+                  | Some (s', a') => bind dst (s', OkNode a')
                   | None => (s, FuelOut)
                   end
       end
@@ -369,7 +348,7 @@ Section Machine.
         | Some c => match changes s (k_cls c) ch with
                     | RBad => (s, Bad)
                     | RSkip => (s, Skipped)
-                    | ROk ch' => finish dst (dc_replace s a ch')
+                    | ROk ch' => bind dst (dc_replace s a ch')
                     end
         end
       end
@@ -383,7 +362,7 @@ Section Machine.
         | Some c => match changes s (k_cls c) ch with
                     | RBad => (s, Bad)
                     | RSkip => (s, Skipped)
-                    | ROk ch' => finish dst (replace s a ch')
+                    | ROk ch' => bind dst (replace s a ch')
                     end
         end
       end
@@ -397,13 +376,17 @@ Section Machine.
       | None => (s, Skipped)
       | Some a => let (s', b) := detach_self s a in (s', OkBool b)
       end
-    | Drop v => (gc (set_var s v None), OkNone)
+    | Drop v => (set_var s v None, OkNone)
     | Read x _ =>
       match resolve s x with
       | None => (s, Skipped)
       | Some _ => (s, OkNone)
       end
     end.
+
+  (* after every operation whatever became unreachable is gone from the weak registry *)
+  Definition step (s : st) (o : op) : st * obs :=
+    let (s', r) := step_raw s o in (gc s', r).
 
   Definition run (s : st) (l : list op) : st := fold_left (fun s o => fst (step s o)) l s.
 
